@@ -1,5 +1,6 @@
 import HaqqModel.Model.LiquidVesting
 import HaqqModel.Driver.Sched
+import HaqqModel.Generated.Facts
 
 namespace Haqq.Driver.C11
 open Haqq.Sched Haqq.Vest Haqq.Liquid Haqq.Driver
@@ -31,6 +32,44 @@ def step : List String → String
     match s.toInt?, now.toInt?, parsePeriods ps with
     | some s, some now, some ps => toString (currentPeriodShift s now ps)
     | _, _, _ => "bad-op"
+  -- ---- message level (stateless) ----
+  | ["mreset"] => "ok"
+  | ["mtime", _] => "ok"
+  | "mcreate" :: _ => "skip"      -- account set-up for the liquid-vesting cases; checked under C09
+  | ["mliq", pre, amt, now] =>
+    match parseWAcct pre, amt.toNat?, now.toInt? with
+    | some (.vest a), some amt, some now =>
+      match liquidate wireM a 0 amt now with
+      | .ok (a', ld) => s!"ok {showWAcct a'} denom={ld.start},{ld.endT},{showPeriods ld.periods}"
+      | .error .hasUnvested => "err:hasUnvested"
+      | .error .noTarget => "err:noTarget"
+      | .error .insufficientLocked => "err:insufficientLocked"
+      | .error .scheduleFailed => "err:scheduleFailed"
+    | some _, some _, some _ => "err:notVesting"
+    | _, _, _ => "bad-op"
+  | ["mredeem", dstart, dend, dperiods, pre, amt, now] =>
+    -- pre = the recipient before the redeem; output: what is left of the denomination and the recipient after
+    match dstart.toInt?, dend.toInt?, parsePeriods dperiods, parseWAcct pre, amt.toNat?, now.toInt? with
+    | some ds, some de, some dp, some pre, some amt, some now =>
+      -- the holder's balance is at most the supply, which equals the schedule's total (C11 backing invariant)
+      if dp.isEmpty then "err:schedule" else
+      if amt > sumList (dp.map fun p => p.amount 0) then "err:insufficient" else
+      match redeem { start := ds, endT := de, periods := dp } 0 amt now with
+      | none => "err:schedule"
+      | some (left, grant) =>
+        let leftS := match left with | some l => s!"{l.start},{l.endT},{showPeriods l.periods}" | none => "deleted"
+        let coins : Amt := single 0 amt
+        let acctS := match grant with
+          | none => (match pre with | .vest a => showWAcct a | _ => "plain")
+          | some (gs, gl, gv) =>
+            match pre with
+            | .vest a =>
+              let gs' := applyGrantStart Haqq.Facts.vestingApplyUsesMin a.start gs
+              let a' := a.addGrant gs' gl gv coins
+              showWAcct { a' with delegatedFree := Amt.zero, delegatedVesting := Amt.zero }
+            | _ => showWAcct (newAccount 999 gs coins gl gv)      -- funder = the module account (printed as 999)
+        s!"ok left={leftS} acct={acctS}"
+    | _, _, _, _, _, _ => "bad-op"
   | _ => "bad-op"
 
 end Haqq.Driver.C11
